@@ -20,7 +20,8 @@ RULE = (
     "with labels.  Oracle: full range - len(bin_edges) == num_bins + 1 == len(bin_centers) + 1 == len(bin_entries) + 1, "
     "edges non-decreasing, each centre within its edges, bin_width consistent with the edge differences, entries equal "
     "to the stored contents (gaps of sparse histograms are zeros); probe - x filled alone into an empty copy moves one "
-    "slot, x lies within that bin's reported edges (rounding tolerance) and bin_entries(xvalues=[x]) returns that "
+    "slot, x lies within that bin's reported edges (bit-exact for CentrallyBin / IrregularlyBin, whose edges are the very "
+    "thresholds fill compares with; rounding tolerance for the computed edges of Bin / SparselyBin) and bin_entries(xvalues=[x]) returns that "
     "slot's content; sub-range - the four accessors have mutually consistent lengths and equal one slice of the "
     "full-range arrays whose end bins contain the query endpoints (an endpoint within numpy.isclose of an edge may fall "
     "on either side); 2-D - every grid cell equals the weight a per-row reference count assigns to it, the grid total "
@@ -273,10 +274,15 @@ def views_1d(case, h, when):  # noqa: PLR0912, PLR0915
     require(len(edg) == n + 1, "full-edges-length", f"{kind} {cfg}: len(bin_edges()) = {len(edg)} but num_bins() = {n}", dict(sig, accessor="bin_edges"))
     require(len(cen) == n, "full-centers-length", f"{kind} {cfg}: len(bin_centers()) = {len(cen)} but num_bins() = {n}", dict(sig, accessor="bin_centers"))
     require(all(a <= b for a, b in zip(edg, edg[1:])), "edges-not-monotone", f"{kind} {cfg}: bin_edges() is not non-decreasing: {edg}", sig)
+    # CentrallyBin / IrregularlyBin edges are the very numbers fill compares against (midpoints (a+b)/2, given
+    # thresholds): reported edges must equal them bit for bit, otherwise a datum within an ulp of an edge is reported
+    # in a bin other than the one it was filled into.  Bin / SparselyBin edges are computed (linspace vs. floor
+    # arithmetic), so only closeness can be demanded there.
+    same = (lambda a, b, _s: float(a) == float(b)) if kind in ("CentrallyBin", "IrregularlyBin") else close
     for j in range(n):
         i = first + j
         lo, hi = v.edges(i)
-        require(close(edg[j], lo, v.scale) and close(edg[j + 1], hi, v.scale), "full-edges-wrong", f"{kind} {cfg}: bin {i} has edges ({edg[j]!r}, {edg[j + 1]!r}), fill uses ({lo!r}, {hi!r})", sig)
+        require(same(edg[j], lo, v.scale) and same(edg[j + 1], hi, v.scale), "full-edges-wrong", f"{kind} {cfg}: bin {i} has edges ({edg[j]!r}, {edg[j + 1]!r}), fill uses ({lo!r}, {hi!r})", sig)
         if not (math.isinf(edg[j]) and math.isinf(edg[j + 1])):
             tol = 1e-9 * max(1.0, v.scale)
             require(edg[j] - tol <= cen[j] <= edg[j + 1] + tol, "centre-outside-bin", f"{kind} {cfg}: centre {cen[j]!r} of bin {i} is outside its edges ({edg[j]!r}, {edg[j + 1]!r})", sig)
@@ -350,7 +356,7 @@ def views_1d(case, h, when):  # noqa: PLR0912, PLR0915
             good = True
             for j, i in enumerate(range(i0, i1 + 1)):
                 lo, hi = v.edges(i)
-                if not (ent[j] == v.content(i) and close(edg[j], lo, v.scale) and close(edg[j + 1], hi, v.scale)):
+                if not (ent[j] == v.content(i) and same(edg[j], lo, v.scale) and same(edg[j + 1], hi, v.scale)):
                     good = False
                     break
                 if kind != "CentrallyBin" and not (math.isinf(lo) or math.isinf(hi)) and not close(cen[j], (lo + hi) / 2.0, v.scale):
